@@ -100,9 +100,9 @@ pub fn gen_tau(rng: &mut Rng) -> u64 {
     b * rng.range(75, 125) / 100
 }
 
-/// time passing on every clock read: none in half of the runs, else 100 ns … 2 ms
+/// time passing on every clock read: none in a third of the runs, else 100 ns … 2 ms
 pub fn gen_read_step(rng: &mut Rng) -> u64 {
-    *rng.pick(&[0u64, 0, 0, 0, 100, 10_000, 300_000, 2_000_000])
+    *rng.pick(&[0u64, 0, 0, 100, 10_000, 50_000, 300_000, 1_000_000, 2_000_000])
 }
 
 pub fn gen_policy(rng: &mut Rng) -> Policy {
